@@ -5,6 +5,8 @@
 (T)  the same clauses evaluated by TLC on every result the real algebra returns: merge pairs and triples, embed pairs and
      triples, mask, forwards; inputs are plain retrievals (one callable each), so 'exactly the declaring inputs' is decidable.
 """
+import random
+
 from .. import algebra, alggen, tlc, absig
 from ..algebra import Universe, run_trace_leg, model_leg, law_event, event
 
@@ -110,6 +112,14 @@ def run(check, tier, seed, scratch):
         # embed with same-named and different-named stars on a sample of the 495 universe
         pairs = alggen.random_tuples(25000, len(US), 2, seed + 9)
         gens.append(alggen.embed_tuples(us, US, pairs, tag='embed2s'))
+    # folds whose INTERMEDIATE result has a star parameter spelled like a named one (a function with a parameter called args embedded in front of
+    # one with *args): the clash is gone once the star is forwarded on, the sources entry of the named parameter has to survive it
+    from . import c04
+    Ui = [c04.rename(ps, {'a': 'args', 'b': 'kwargs'}) for ps in tlc.export_universe(scratch, 'ab', ['rest'], ['kw'], 2) if alggen.has_star(ps)]
+    Umix = UO + Ui
+    rmix = random.Random(seed + 21)
+    mix3 = [(len(UO) + rmix.randrange(len(Ui)), rmix.randrange(len(UO)), rmix.randrange(len(Umix))) for _ in range(6000 if quick else 120000)]
+    gens.append(alggen.embed_tuples(Universe(Umix), Umix, mix3, tag='embed3-starnames'))
     for op in ('merge', 'embed', 'mask', 'forwards'):
         gens.append(alggen.cex_events(cu, op, [c for o, c in cex if o == op], tag='modelcex-' + op))
     run_trace_leg(check, scratch, 'provenance', alggen.chain(*gens), WANT, classify=classify)
